@@ -17,80 +17,242 @@ import ast
 from ..cases import AV, ArrayTruth, CaseEval, Undecided
 from ..dataflow import Inliner
 from ..loader import AnalysisError, Program, calls_in, norm, walk_no_nested
-from ..minieval import PredUnsupported, ev
+from ..minieval import PredUnsupported, Raises, ev, run_stmts
 from ..report import Ledger
 from ..truthy import scan_function
 
 
+class _Obj:
+    """A freshly allocated array followed through one iteration of the per-array loop."""
+
+    def __init__(self, kind, length, trailing, dtype, node):
+        self.kind = kind  # "array" | "mask"
+        self.length = length  # ast expr (substituted)
+        self.trailing = trailing  # ast expr | None
+        self.dtype = dtype  # ast expr | None
+        self.node = node
+        self.false_at: list[str] = []  # mask: selectors set to False
+        self.dirty: list[str] = []  # mask: any other store
+        self.stores: list[tuple] = []  # array: (selector description, value text, lineno)
+
+
+class _Reinsert:
+    """Flow-sensitive abstract run of reinsert_atoms' prefix and of one iteration of its first loop: locals bound to
+    pure expressions are substituted at their uses, fresh arrays / boolean masks are tracked as objects with the
+    row-scatter stores they receive.  Anything outside that fragment is an unrecognised idiom (AnalysisError)."""
+
+    ALLOC = ("np.zeros", "np.empty", "np.full", "np.ones", "numpy.zeros", "numpy.empty", "numpy.full", "numpy.ones")
+
+    def __init__(self, target_prefix: str):
+        self.env: dict[str, ast.expr] = {}
+        self.objs: dict[str, _Obj] = {}
+        self.final: list[tuple] = []  # (key text, value name / text, lineno, snapshot)
+        self.after_final: list[str] = []
+        self.target_prefix = target_prefix
+
+    def subst(self, e: ast.expr) -> ast.expr:
+        import copy
+
+        me = self
+
+        class T(ast.NodeTransformer):
+            def visit_Name(self, node):
+                if isinstance(node.ctx, ast.Load) and node.id in me.env:
+                    return copy.deepcopy(me.env[node.id])
+                return node
+
+            def visit_Call(self, node):
+                if norm(node.func) == "len" and len(node.args) == 1 and isinstance(node.args[0], ast.Name) and node.args[0].id in me.objs:
+                    return copy.deepcopy(me.objs[node.args[0].id].length)
+                return self.generic_visit(node)
+
+        return T().visit(copy.deepcopy(e))
+
+    def _alloc(self, call: ast.Call):
+        fn = norm(call.func)
+        kws = {k.arg: k.value for k in call.keywords}
+        shape = self.subst(call.args[0]) if call.args else (self.subst(kws["shape"]) if "shape" in kws else None)
+        if shape is None:
+            raise AnalysisError(f"reinsert_atoms: allocation `{norm(call)[:60]}` without a shape")
+        dtype = kws.get("dtype")
+        npos = 2 if fn.endswith(".full") else 1
+        if dtype is None and len(call.args) > npos:
+            dtype = call.args[npos]
+        dtype = self.subst(dtype) if dtype is not None else None
+        if fn.endswith(".ones") and dtype is not None and norm(dtype) in ("bool", "np.bool_", "numpy.bool_"):
+            return _Obj("mask", shape, None, dtype, call)
+        if fn.endswith(".full") and len(call.args) > 1 and norm(call.args[1]) == "True" and dtype is not None and norm(dtype) in ("bool", "np.bool_"):
+            return _Obj("mask", shape, None, dtype, call)
+        if isinstance(shape, ast.Tuple) and len(shape.elts) == 2 and isinstance(shape.elts[1], ast.Starred):
+            return _Obj("array", shape.elts[0], shape.elts[1].value, dtype, call)
+        if isinstance(shape, ast.Tuple) and len(shape.elts) == 1:
+            return _Obj("array", shape.elts[0], None, dtype, call)
+        return _Obj("array", shape, None, dtype, call)
+
+    def run(self, stmts):
+        for st in stmts:
+            self.stmt(st)
+
+    def stmt(self, st):
+        if isinstance(st, ast.Expr) and isinstance(st.value, ast.Constant):
+            return
+        if isinstance(st, ast.Pass):
+            return
+        if isinstance(st, ast.AnnAssign) and st.value is not None:
+            st = ast.Assign(targets=[st.target], value=st.value, lineno=st.lineno)
+        if isinstance(st, ast.If):
+            # both arms bind the same single local to a pure expression: a conditional expression
+            def single(arm):
+                return len(arm) == 1 and isinstance(arm[0], ast.Assign) and len(arm[0].targets) == 1 and isinstance(arm[0].targets[0], ast.Name)
+
+            if single(st.body) and single(st.orelse) and st.body[0].targets[0].id == st.orelse[0].targets[0].id:
+                nm = st.body[0].targets[0].id
+                self.env[nm] = ast.IfExp(test=self.subst(st.test), body=self.subst(st.body[0].value), orelse=self.subst(st.orelse[0].value))
+                self.objs.pop(nm, None)
+                return
+            raise AnalysisError(f"reinsert_atoms: branch `{norm(st.test)[:60]}` inside the array loop is outside the recognised fragment")
+        if not isinstance(st, ast.Assign):
+            raise AnalysisError(f"reinsert_atoms: statement `{norm(st)[:60]}` is outside the recognised fragment")
+        for tgt in st.targets:
+            self.assign(tgt, st.value, st.lineno)
+
+    def assign(self, tgt, value, lineno):
+        if isinstance(tgt, ast.Name):
+            if isinstance(value, ast.Call) and norm(value.func) in self.ALLOC:
+                self.objs[tgt.id] = self._alloc(value)
+                self.env.pop(tgt.id, None)
+            elif isinstance(value, ast.Name) and value.id in self.objs:
+                self.objs[tgt.id] = self.objs[value.id]
+                self.env.pop(tgt.id, None)
+            else:
+                self.env[tgt.id] = self.subst(value)
+                self.objs.pop(tgt.id, None)
+            return
+        if isinstance(tgt, ast.Subscript):
+            base = tgt.value
+            if isinstance(base, ast.Name) and base.id in self.objs:
+                o = self.objs[base.id]
+                if self.final:
+                    self.after_final.append(norm(tgt))
+                sel = tgt.slice
+                if o.kind == "mask":
+                    v = norm(self.subst(value))
+                    if v == "False":
+                        o.false_at.append(norm(self.subst(sel)))
+                    else:
+                        o.dirty.append(f"{norm(tgt)} = {v}")
+                    return
+                if isinstance(sel, ast.Name) and sel.id in self.objs and self.objs[sel.id].kind == "mask":
+                    m = self.objs[sel.id]
+                    seld = ("mask", tuple(m.false_at), tuple(m.dirty), norm(m.length))
+                elif isinstance(sel, ast.UnaryOp) and isinstance(sel.op, ast.Invert) and isinstance(sel.operand, ast.Name) and sel.operand.id in self.objs:
+                    m = self.objs[sel.operand.id]
+                    seld = ("notmask", tuple(m.false_at), tuple(m.dirty), norm(m.length))
+                else:
+                    seld = ("index", norm(self.subst(sel)))
+                o.stores.append((seld, norm(self.subst(value)), lineno))
+                return
+            if norm(self.subst(base)) == self.target_prefix:
+                val = value
+                o = self.objs.get(val.id) if isinstance(val, ast.Name) else None
+                self.final.append((norm(self.subst(tgt.slice)), o, norm(self.subst(val)), lineno))
+                return
+        raise AnalysisError(f"reinsert_atoms: store `{norm(tgt)[:60]}` is outside the recognised fragment")
+
+
 def check_reinsert(prog: Program, L: Ledger, rule: str) -> None:
     """reinsert_atoms has the scatter/gather shape that inverts `del atoms[indices]`."""
+    from ..normalize import flat
+
     mod = f"{prog.package}.utils.atoms"
-    ri = prog.func(mod, "reinsert_atoms")
-    rel = ri.module.relpath
+    ri0 = prog.func(mod, "reinsert_atoms")
+    ri = flat(prog, ri0, None, keep=("reinsert_atoms",))
+    rel = ri0.module.relpath
 
     # ------------------------------------------------------------------ R1
     p_atoms, p_new, p_idx = ri.params()[:3]
-    inl = Inliner(ri.node)
-    loops = [s for s in ri.body() if isinstance(s, ast.For)]
+    body = [s for s in ri.body() if not (isinstance(s, ast.Expr) and isinstance(s.value, ast.Constant))]
+    loops = [s for s in body if isinstance(s, ast.For)]
     if len(loops) != 2:
         raise AnalysisError(f"reinsert_atoms: expected two loops (existing arrays, new-only arrays), found {len(loops)}")
     l1, l2 = loops
-    it1 = norm(l1.iter)
-    L.check(it1 in (f"{p_atoms}.arrays", f"{p_atoms}.arrays.keys()", f"list({p_atoms}.arrays)", f"list({p_atoms}.arrays.keys())"), rule, "reinsert_atoms:all-arrays", f"{rel}:{l1.lineno}",
+    if any(isinstance(s, (ast.Return, ast.Raise)) for s in walk_no_nested(ri.node) if not isinstance(s, ast.FunctionDef)):
+        raise AnalysisError("reinsert_atoms: early exit is outside the recognised fragment")
+    M = _Reinsert(f"{p_atoms}.arrays")
+    M.run(body[: body.index(l1)])
+    between = body[body.index(l1) + 1 : body.index(l2)]
+    it1 = norm(M.subst(l1.iter))
+    L.check(it1 in (f"{p_atoms}.arrays", f"{p_atoms}.arrays.keys()", f"list({p_atoms}.arrays)", f"list({p_atoms}.arrays.keys())", f"tuple({p_atoms}.arrays)"), rule, "reinsert_atoms:all-arrays", f"{rel}:{l1.lineno}",
             f"first loop iterates `{it1}`, not every per-atom array of the target", "an array (tags, momenta, charges, custom) keeps its shortened length: Atoms becomes inconsistent", it1)
-    name = norm(l1.target)
-    body1 = l1.body
-    # source array
-    src_asg = [s for s in body1 if isinstance(s, ast.Assign) and isinstance(s.targets[0], ast.Name) and ("get_masses" in norm(s.value) or f"{p_new}.arrays" in norm(s.value))]
-    if len(src_asg) != 1:
-        raise AnalysisError("reinsert_atoms: source-array assignment not found")
-    src = src_asg[0]
-    src_name = src.targets[0].id
-    st = norm(src.value)
-    L.check(f"{p_new}.arrays.get({name}" in st or f"{p_new}.arrays[{name}]" in st or f"{p_new}.get_array({name}" in st, rule, "reinsert_atoms:source", f"{rel}:{src.lineno}",
-            f"re-inserted rows come from `{st[:90]}`, not from the removed atoms' array of the same name", "re-inserted atoms get values of another array", st[:120])
-    # new array
-    na = [s for s in body1 if isinstance(s, ast.Assign) and isinstance(s.value, ast.Call) and norm(s.value.func) in ("np.zeros", "np.empty", "np.full")]
-    if len(na) != 1:
-        raise AnalysisError("reinsert_atoms: new-array allocation not found")
-    alloc = na[0]
-    new_name = norm(alloc.targets[0])
-    shape = alloc.value.args[0]
-    kws = {k.arg: k.value for k in alloc.value.keywords}
-    dtype = kws.get("dtype")
-    if dtype is None and len(alloc.value.args) > 1 and norm(alloc.value.func) != "np.full":
-        dtype = alloc.value.args[1]
-    L.check(dtype is not None and norm(dtype) == f"{p_atoms}.arrays[{name}].dtype", rule, "reinsert_atoms:dtype", f"{rel}:{alloc.lineno}",
-            f"new array dtype is `{norm(dtype) if dtype is not None else 'float64 (default)'}`, not the dtype of the existing array",
-            "integer arrays (numbers, tags) come back as floats, or the re-inserted atoms' dtype wins", norm(alloc.value)[:120])
-    okshape = False
-    if isinstance(shape, ast.Tuple) and len(shape.elts) == 2 and isinstance(shape.elts[1], ast.Starred):
-        first = norm(inl.inline(shape.elts[0]))
-        rest = norm(shape.elts[1].value)
-        okshape = first in (f"len({p_atoms}) + len({p_new})", f"len({p_new}) + len({p_atoms})") and rest == f"{src_name}.shape[1:]"
-    L.check(okshape, rule, "reinsert_atoms:shape", f"{rel}:{alloc.lineno}", f"new array shape is `{norm(shape)[:80]}`, not (len(atoms)+len(new), *source.shape[1:])",
-            "2-D arrays (positions, momenta, custom) lose their trailing shape / length mismatch", norm(shape)[:100])
-    # mask
-    masks = [s for s in body1 if isinstance(s, ast.Assign) and isinstance(s.value, ast.Call) and norm(s.value.func) == "np.ones" and "bool" in norm(s.value)]
-    if len(masks) != 1:
-        raise AnalysisError("reinsert_atoms: boolean mask allocation not found")
-    mname = norm(masks[0].targets[0])
-    stores = [s for s in body1 if isinstance(s, ast.Assign) and isinstance(s.targets[0], ast.Subscript)]
-    texts = [norm(s) for s in stores]
-    want = [f"{mname}[{p_idx}] = False", f"{new_name}[{mname}] = {p_atoms}.arrays[{name}]", f"{new_name}[{p_idx}] = {src_name}", f"{p_atoms}.arrays[{name}] = {new_name}"]
-    for w in want:
-        L.check(w in texts, rule, f"reinsert_atoms:{w.split(' = ')[0]}", f"{rel}:{l1.lineno}",
-                f"missing scatter step `{w}` (found: {texts})", "kept rows and re-inserted rows are not placed at complementary positions: the original order is not restored", w)
-    if all(w in texts for w in want):
-        order = [texts.index(w) for w in want]
-        L.check(order == sorted(order), rule, "reinsert_atoms:order", f"{rel}:{l1.lineno}", "scatter steps are out of order", "", "order")
-    extra = [t for t in texts if t not in want]
-    L.check(not extra, rule, "reinsert_atoms:extra-stores", f"{rel}:{l1.lineno}", f"unexpected stores {extra}", "", ";".join(extra))
+    if not isinstance(l1.target, ast.Name) or l1.orelse:
+        raise AnalysisError("reinsert_atoms: first loop target is not a single name")
+    name = l1.target.id
+    M.run(l1.body)
+    where1 = f"{rel}:{l1.lineno}"
+    if len(M.final) != 1 or M.final[0][0] != name:
+        L.violation(rule, "reinsert_atoms:result-store", where1, f"one iteration stores {[(k, v) for k, _o, v, _l in M.final]} into {p_atoms}.arrays, not exactly the rebuilt `{name}` array",
+                    "the per-atom array is not replaced by the merged one", "final-store")
+        return
+    _key, obj, vtxt, fline = M.final[0]
+    if obj is None or obj.kind != "array":
+        L.violation(rule, "reinsert_atoms:result-store", f"{rel}:{fline}", f"`{p_atoms}.arrays[{name}]` receives `{vtxt[:80]}`, not a freshly allocated array filled by row scatter",
+                    "kept rows and re-inserted rows are not placed at complementary positions: the original order is not restored", vtxt[:100])
+        return
+    L.ok(rule, "reinsert_atoms:result-store", f"{rel}:{fline}")
+    old_txt = f"{p_atoms}.arrays[{name}]"
+    total = (f"len({p_atoms}) + len({p_new})", f"len({p_new}) + len({p_atoms})")
+    aline = getattr(obj.node, "lineno", l1.lineno)
+    # the re-inserted rows and where they come from
+    idx_stores = [s for s in obj.stores if s[0] == ("index", p_idx)]
+    mask_stores = [s for s in obj.stores if s[0][0] == "mask"]
+    other = [s for s in obj.stores if s not in idx_stores and s not in mask_stores]
+    src_txt = idx_stores[0][1] if idx_stores else ""
+    L.check(len(idx_stores) == 1, rule, f"reinsert_atoms:new[{p_idx}]", where1,
+            f"the rebuilt array receives {len(idx_stores)} stores under `{p_idx}` (stores: {[(s[0][:2], s[1][:40]) for s in obj.stores]})",
+            "re-inserted rows are not put back at the indices they were removed from", "indices-store")
+    if idx_stores:
+        st = src_txt
+        L.check(f"{p_new}.arrays.get({name}" in st or f"{p_new}.arrays[{name}]" in st or f"{p_new}.get_array({name}" in st, rule, "reinsert_atoms:source", f"{rel}:{idx_stores[0][2]}",
+                f"re-inserted rows come from `{st[:90]}`, not from the removed atoms' array of the same name", "re-inserted atoms get values of another array", st[:120])
+    ok_mask = len(mask_stores) == 1 and mask_stores[0][0][1] == (p_idx,) and not mask_stores[0][0][2] and mask_stores[0][1] == old_txt
+    detail = ""
+    if mask_stores:
+        m = mask_stores[0]
+        detail = f"mask False at {list(m[0][1])}{' plus ' + str(list(m[0][2])) if m[0][2] else ''}, rows from `{m[1][:60]}`"
+    L.check(ok_mask, rule, "reinsert_atoms:new[mask]", where1,
+            f"kept rows must be scattered under the complement of `{p_idx}` from `{old_txt}`; found {detail or [(s[0][:2], s[1][:40]) for s in obj.stores]}",
+            "kept rows and re-inserted rows are not placed at complementary positions: the original order is not restored", "mask-store")
+    if mask_stores:
+        mlen = mask_stores[0][0][3]
+        L.check(mlen in total or mlen == norm(obj.length), rule, "reinsert_atoms:mask-length", where1, f"mask has length `{mlen}`, the rebuilt array `{norm(obj.length)}`", "boolean index of the wrong length", mlen)
+    L.check(not other and not M.after_final, rule, "reinsert_atoms:extra-stores", where1, f"unexpected stores {[(s[0], s[1][:40]) for s in other] + M.after_final}", "rows overwritten after the merge", "extra")
+    # dtype, length, trailing shape
+    L.check(obj.dtype is not None and norm(obj.dtype) == f"{old_txt}.dtype", rule, "reinsert_atoms:dtype", f"{rel}:{aline}",
+            f"new array dtype is `{norm(obj.dtype) if obj.dtype is not None else 'float64 (default)'}`, not the dtype of the existing array",
+            "integer arrays (numbers, tags) come back as floats, or the re-inserted atoms' dtype wins", norm(obj.node)[:120])
+    okshape = norm(obj.length) in total and obj.trailing is not None and idx_stores and norm(obj.trailing) == f"{src_txt}.shape[1:]"
+    if not okshape and obj.trailing is not None and idx_stores:
+        # (a if c else b).shape[1:] is printed with parentheses
+        okshape = norm(obj.length) in total and norm(obj.trailing) in (f"({src_txt}).shape[1:]",)
+    L.check(bool(okshape), rule, "reinsert_atoms:shape", f"{rel}:{aline}",
+            f"new array shape is `({norm(obj.length)[:60]}, *{norm(obj.trailing)[:60] if obj.trailing is not None else '()'})`, not (len(atoms)+len(new), *source.shape[1:])",
+            "2-D arrays (positions, momenta, custom) lose their trailing shape / length mismatch", norm(obj.node)[:100])
     # second loop: new-only arrays
+    for st in between:
+        if not isinstance(st, (ast.Assign, ast.AnnAssign, ast.Pass)):
+            raise AnalysisError(f"reinsert_atoms: statement `{norm(st)[:60]}` between the loops is outside the recognised fragment")
     it2 = norm(l2.iter)
-    ok2 = it2 == f"{p_new}.arrays.items()" and any(isinstance(s, ast.If) and norm(s.test) == f"{norm(l2.target.elts[0])} not in {p_atoms}.arrays" for s in l2.body)
+    ok2 = False
+    if it2 == f"{p_new}.arrays.items()" and isinstance(l2.target, ast.Tuple) and len(l2.target.elts) == 2:
+        k2 = norm(l2.target.elts[0])
+        for s_ in l2.body:
+            if not isinstance(s_, ast.If):
+                continue
+            t = norm(s_.test)
+            arm = s_.body if t in (f"{k2} not in {p_atoms}.arrays", f"not {k2} in {p_atoms}.arrays") else (s_.orelse if t == f"{k2} in {p_atoms}.arrays" else None)
+            if arm and any(isinstance(c, ast.Call) and (norm(c.func) in (f"{p_atoms}.set_array", f"{p_atoms}.new_array")) for a in arm for c in ast.walk(a)):
+                ok2 = True
     L.check(ok2, rule, "reinsert_atoms:new-only-arrays", f"{rel}:{l2.lineno}", "arrays present only in the re-inserted atoms are not added", "a per-atom array carried only by the removed atoms is lost", it2)
-
 
 
 def run(prog: Program, L: Ledger) -> None:
@@ -110,95 +272,187 @@ def run(prog: Program, L: Ledger) -> None:
 
     check_reinsert(prog, L, "R1")
     mod = f"{prog.package}.utils.atoms"
-    sm = prog.func(mod, "search_molecules")
+    sm0 = prog.func(mod, "search_molecules")
 
     # ------------------------------------------------------------------ R2
-    rel2 = sm.module.relpath
+    from ..normalize import flat
+
+    sm = flat(prog, sm0, None, keep=("search_molecules",))
+    rel2 = sm0.module.relpath
     dparam = "default_array"
     if dparam not in sm.params():
         raise AnalysisError("search_molecules: parameter default_array missing")
-    for site in scan_function(prog, sm):
+    for site in scan_function(prog, sm0):
         if site.verdict in ("ndarray", "optnum") and ("default_array" in norm(site.expr) or site.verdict == "ndarray"):
             L.violation("R2", "search_molecules:truthiness", f"{rel2}:{site.expr.lineno}", f"`{norm(site.expr)}` is truth-tested ({site.type_text})", site.witness, norm(site.expr))
-    mol = [s for s in sm.body() if isinstance(s, (ast.Assign, ast.AnnAssign)) and norm(s.targets[0] if isinstance(s, ast.Assign) else s.target) == "molecules"]
-    if len(mol) != 1:
-        raise AnalysisError("search_molecules: single definition of `molecules` expected")
-    mexpr = mol[0].value
+    body = [s for s in sm.body() if not (isinstance(s, ast.Expr) and isinstance(s.value, ast.Constant))]
+    rets = [s for s in walk_no_nested(sm.node) if isinstance(s, ast.Return)]
+    if len(rets) != 1 or rets[0] is not body[-1] or not isinstance(rets[0].value, ast.Name):
+        raise AnalysisError("search_molecules: a single trailing `return <label array>` expected")
+    res = rets[0].value.id
+    # the component loop: the one loop that stores into the result
+    stores = [n for n in walk_no_nested(sm.node) if isinstance(n, ast.Assign) and any(isinstance(t, ast.Subscript) and norm(t.value) == res for t in n.targets)]
+    if len(stores) != 1:
+        raise AnalysisError(f"search_molecules: expected one store into `{res}`, found {len(stores)}")
+    store = stores[0]
+    loops = [s for s in body if isinstance(s, ast.For) and any(x is store for x in ast.walk(s))]
+    if len(loops) != 1:
+        L.violation("R2", "search_molecules:label-loop", f"{rel2}:{store.lineno}", "labels are not written inside a loop over the components", "", norm(store))
+        return
+    loop = loops[0]
+    pre = body[: body.index(loop)]
+    post = body[body.index(loop) + 1 : -1]
+    if any(res in {n.id for n in ast.walk(s) if isinstance(n, ast.Name)} for s in post):
+        raise AnalysisError(f"search_molecules: `{res}` is modified after the component loop (unrecognised idiom)")
+
+    # (a) what the result starts from, by case of the default array
+    sl = _backward_slice(pre, {res})
+    if not sl:
+        raise AnalysisError(f"search_molecules: no definition of `{res}` before the component loop")
+    line0 = sl[-1].lineno
+    text0 = "; ".join(norm(s)[:80] for s in sl if res in norm(s))[:160]
     for case, av in (("None", AV("none", "default_array")), ("array of length 1 (e.g. [0])", AV("array1", "default_array")), ("array of length N", AV("arrayN", "default_array"))):
         ce = CaseEval({"default_array": av})
         cons = f"search_molecules[default_array={case.split(' (')[0]}]"
         try:
-            # statements before the definition may normalise the default
-            pre = sm.body()[: sm.body().index(mol[0])]
-            ce.run([s for s in pre if isinstance(s, (ast.Assign, ast.If)) and "default_array" in norm(s)])
-            got = ce.ev(mexpr)
+            ce.run(sl)
+            got = ce.ev(ast.Name(id=res, ctx=ast.Load()))
         except ArrayTruth:
-            L.violation("R2", cons, f"{rel2}:{mol[0].lineno}", f"`{norm(mexpr)[:90]}` takes the truth value of the default array: ValueError for any array with more than one element",
-                        "search_molecules(atoms, cutoff, default_array=np.full(len(atoms), -1)) raises", norm(mexpr)[:120])
+            L.violation("R2", cons, f"{rel2}:{line0}", f"`{text0}` takes the truth value of the default array: ValueError for any array with more than one element",
+                        "search_molecules(atoms, cutoff, default_array=np.full(len(atoms), -1)) raises", text0)
             continue
         except Undecided as exc:
             if av.kind == "array1":
                 # truth of a one-element array is its element's: whichever way, taking it is the defect
-                L.violation("R2", cons, f"{rel2}:{mol[0].lineno}", f"`{norm(mexpr)[:90]}` takes the truth value of the default array", "default_array=[0] is replaced by the fallback", norm(mexpr)[:120])
+                L.violation("R2", cons, f"{rel2}:{line0}", f"`{text0}` takes the truth value of the default array", "default_array=[0] is replaced by the fallback", text0)
                 continue
             raise AnalysisError(f"search_molecules default handling, case {case}: {exc}") from exc
         if av.kind == "none":
-            L.check(got.origin is None, "R2", cons, f"{rel2}:{mol[0].lineno}", "without a default the result must start from a fresh array", "", norm(mexpr)[:100])
+            L.check(got.origin is None, "R2", cons, f"{rel2}:{line0}", "without a default the result must start from a fresh array", "", text0)
         else:
-            L.check(got.origin == "default_array", "R2", cons, f"{rel2}:{mol[0].lineno}",
-                    f"with a default array the result starts from `{got}` instead of the supplied default", "atoms outside admitted molecules do not keep the supplied default", norm(mexpr)[:120])
-    # fallback fill value −1 / size
-    # size filter + label store
-    stores = []
-    for n in walk_no_nested(sm.node):
-        if isinstance(n, ast.Assign) and isinstance(n.targets[0], ast.Subscript) and norm(n.targets[0].value) == "molecules":
-            stores.append(n)
-    if len(stores) != 1:
-        raise AnalysisError(f"search_molecules: expected one store into molecules, found {len(stores)}")
-    store = stores[0]
-    guard = None
-    loop = None
-    for n in walk_no_nested(sm.node):
-        if isinstance(n, ast.For) and any(x is store for x in ast.walk(n)):
-            loop = n
-        if isinstance(n, ast.If) and any(x is store for x in n.body):
-            guard = n
-    if loop is None:
-        raise AnalysisError("search_molecules: label store is not inside the component loop")
-    if guard is None:
-        L.violation("R2", "search_molecules:size-filter", f"{rel2}:{store.lineno}", "labels are written for every component, ignoring required_size", "components of the wrong size are labelled", norm(store))
-    else:
-        bad = None
-        try:
-            for lo in range(0, 4):
-                for hi in range(lo, 5):
-                    for sz in range(0, 6):
-                        env = {"required_size[0]": lo, "required_size[1]": hi, "molecule_array.size": sz, "len(mol)": sz, "len(molecule_array)": sz}
-                        got = bool(ev(_subst_subscripts(guard.test), env))
-                        if got != (lo <= sz <= hi):
-                            bad = (lo, hi, sz, got)
-        except PredUnsupported as exc:
-            raise AnalysisError(f"search_molecules size filter: {exc}") from exc
-        L.check(bad is None, "R2", "search_molecules:size-filter", f"{rel2}:{guard.lineno}",
-                f"size filter `{norm(guard.test)}` is not the inclusive range test" + (f": bounds ({bad[0]}, {bad[1]}), size {bad[2]} -> {bad[3]}" if bad else ""),
-                (f"required_size=({bad[0]}, {bad[1]}) and a component of {bad[2]} atoms" if bad else ""), norm(guard.test))
+            L.check(got.origin == "default_array", "R2", cons, f"{rel2}:{line0}",
+                    f"with a default array the result starts from `{got}` instead of the supplied default", "atoms outside admitted molecules do not keep the supplied default", text0)
+
+    # (b) which components get a label: normalisation of required_size + the guards on the path to the store
+    path = _path_to(loop.body, store)
+    if path is None:
+        raise AnalysisError("search_molecules: label store not found on a structured path of the loop body")
+    inl_loop = {}
+    comp_names = set()
+    if isinstance(loop.target, ast.Tuple) and len(loop.target.elts) == 2:
+        comp_names.add(norm(loop.target.elts[1]))
+    for st_ in ast.walk(loop):
+        if isinstance(st_, ast.Assign) and len(st_.targets) == 1 and isinstance(st_.targets[0], ast.Name):
+            used = {n.id for n in ast.walk(st_.value) if isinstance(n, ast.Name)}
+            if used & comp_names:
+                comp_names.add(st_.targets[0].id)
+    idx_t = [t for t in store.targets if isinstance(t, ast.Subscript)][0]
+    L.check(norm(idx_t.slice) in comp_names, "R2", "search_molecules:label-target", f"{rel2}:{store.lineno}", f"label is stored at `{norm(idx_t.slice)}`, not at the members of the component", "atoms of other components are relabelled", norm(store))
+    guard_names = set()
+    for test, _pol in path:
+        guard_names |= {n.id for n in ast.walk(test) if isinstance(n, ast.Name)}
+    pre_rs = _backward_slice(pre, guard_names - comp_names)
+    N = 5
+    bad = None
+    guard_txt = " and ".join((norm(t) if pol else f"not ({norm(t)})") for t, pol in path) or "(no guard)"
+    try:
+        cases = [None] + list(range(0, N + 1)) + [(lo, hi) for lo in range(0, N + 1) for hi in range(lo, N + 2)]
+        for rs in cases:
+            env = {"required_size": rs, "len(atoms)": N, "atoms.get_global_number_of_atoms()": N, "default_array": None}
+            run_stmts(pre_rs, env)
+            for sz in range(0, N + 1):
+                e2 = dict(env)
+                for cn in comp_names:
+                    e2[f"{cn}.size"] = sz
+                    e2[f"len({cn})"] = sz
+                    e2[f"{cn}.shape[0]"] = sz
+                got = True
+                for test, pol in path:
+                    if bool(ev(test, e2)) != pol:
+                        got = False
+                        break
+                want = (0 <= sz <= N) if rs is None else ((sz == rs) if isinstance(rs, int) else (rs[0] <= sz <= rs[1]))
+                if got != want and bad is None:
+                    bad = (rs, sz, got)
+    except Raises as exc:
+        bad = bad or ("?", "?", f"raises {exc.what}")
+    except PredUnsupported as exc:
+        raise AnalysisError(f"search_molecules size filter: {exc}") from exc
+    L.check(bad is None, "R2", "search_molecules:size-filter", f"{rel2}:{store.lineno}",
+            f"components are labelled when `{guard_txt[:100]}`, which is not the inclusive size window" + (f": required_size={bad[0]}, component of {bad[1]} atoms -> labelled={bad[2]}" if bad else "")
+            if path else "labels are written for every component, ignoring required_size",
+            (f"required_size={bad[0]} and a component of {bad[1]} atoms" if bad else ""), guard_txt[:120])
     # enumeration from 0 over connected components of from_numpy_array(connectivity)
+    def one_step(node):
+        """a local bound exactly once (at top level, before the loop) stands for its value; nothing deeper is substituted"""
+        if isinstance(node, ast.Name):
+            defs = [s_ for s_ in walk_no_nested(sm.node) if isinstance(s_, ast.Assign) and any(isinstance(t, ast.Name) and t.id == node.id for t in s_.targets)]
+            if len(defs) == 1 and defs[0] in pre:
+                return defs[0].value
+        return node
+
     it = loop.iter
-    oken = isinstance(it, ast.Call) and norm(it.func) == "enumerate" and len(it.args) == 1 and not it.keywords and isinstance(it.args[0], ast.Call) and norm(it.args[0].func) == "nx.connected_components"
+    oken = isinstance(it, ast.Call) and norm(it.func) == "enumerate" and len(it.args) == 1 and not it.keywords
+    comp = one_step(it.args[0]) if oken else None
+    oken = oken and isinstance(comp, ast.Call) and norm(comp.func) in ("nx.connected_components", "networkx.connected_components", "connected_components")
     L.check(oken, "R2", "search_molecules:enumeration", f"{rel2}:{loop.lineno}", f"components are labelled by `{norm(it)[:80]}`, not enumerate(nx.connected_components(...)) from 0", "labels negative or shared between components", norm(it)[:100])
     if oken:
         lab = norm(loop.target.elts[0]) if isinstance(loop.target, ast.Tuple) else None
         L.check(lab is not None and norm(store.value) == lab, "R2", "search_molecules:label-value", f"{rel2}:{store.lineno}", f"stored label `{norm(store.value)}` is not the enumeration index", "two molecules share a label", norm(store))
-        g = it.args[0].args[0]
-        L.check(isinstance(g, ast.Call) and norm(g.func) == "nx.from_numpy_array" and norm(g.args[0]) == "connectivity", "R2", "search_molecules:graph", f"{rel2}:{loop.lineno}", "graph is not built from the connectivity matrix", "", norm(g)[:80])
-    nl = [c for c in calls_in(sm.node) if norm(c.func) == "neighbor_list"]
+        g = one_step(comp.args[0]) if comp.args else None
+        cname = norm(g.args[0]) if isinstance(g, ast.Call) and g.args else ""
+        L.check(isinstance(g, ast.Call) and norm(g.func) in ("nx.from_numpy_array", "networkx.from_numpy_array", "nx.Graph", "nx.from_numpy_matrix") and bool(cname), "R2", "search_molecules:graph", f"{rel2}:{loop.lineno}", "graph is not built from the connectivity matrix", "", norm(g)[:80] if g is not None else "")
+    else:
+        cname = ""
+    nl = [c for c in calls_in(sm.node) if norm(c.func) in ("neighbor_list", "ase.neighborlist.neighbor_list", "neighborlist.neighbor_list")]
     oknl = len(nl) == 1 and norm(nl[0].args[0]) == "'ij'" and any(k.arg == "self_interaction" and norm(k.value) == "False" for k in nl[0].keywords) and any(k.arg == "cutoff" and norm(k.value) == "cutoff" for k in nl[0].keywords)
-    L.check(oknl, "R2", "search_molecules:neighbour-list", f"{rel2}:{nl[0].lineno if nl else sm.node.lineno}", "neighbour list is not neighbor_list('ij', atoms, cutoff=cutoff, self_interaction=False)", "self-bonds / wrong cutoff change the components", norm(nl[0])[:100] if nl else "")
-    cs = [s for s in sm.body() if isinstance(s, ast.Assign) and isinstance(s.targets[0], ast.Subscript) and norm(s.targets[0].value) == "connectivity"]
-    okc = len(cs) == 1 and norm(cs[0].targets[0].slice) in ("(indices, neighbors)",) and norm(cs[0].value) == "1"
-    L.check(okc, "R2", "search_molecules:connectivity", f"{rel2}:{cs[0].lineno if cs else sm.node.lineno}", "connectivity[i, j] = 1 for every neighbour pair not found", "", norm(cs[0]) if cs else "")
-    rets = [s for s in sm.body() if isinstance(s, ast.Return)]
-    L.check(len(rets) == 1 and norm(rets[0].value) == "molecules", "R2", "search_molecules:return", f"{rel2}:{rets[0].lineno if rets else sm.node.lineno}", "does not return the label array", "", "return")
+    L.check(oknl, "R2", "search_molecules:neighbour-list", f"{rel2}:{nl[0].lineno if nl else sm0.node.lineno}", "neighbour list is not neighbor_list('ij', atoms, cutoff=cutoff, self_interaction=False)", "self-bonds / wrong cutoff change the components", norm(nl[0])[:100] if nl else "")
+    pair = None
+    for s_ in pre:
+        if isinstance(s_, ast.Assign) and isinstance(s_.value, ast.Call) and nl and s_.value is nl[0] and isinstance(s_.targets[0], ast.Tuple) and len(s_.targets[0].elts) == 2:
+            pair = tuple(norm(x) for x in s_.targets[0].elts)
+    cs = [s_ for s_ in pre if isinstance(s_, ast.Assign) and isinstance(s_.targets[0], ast.Subscript) and norm(s_.targets[0].value) == cname]
+    okc = pair is not None and len(cs) == 1 and norm(cs[0].targets[0].slice) in (f"({pair[0]}, {pair[1]})", f"({pair[1]}, {pair[0]})") and norm(cs[0].value) in ("1", "True")
+    L.check(okc, "R2", "search_molecules:connectivity", f"{rel2}:{cs[0].lineno if cs else sm0.node.lineno}", "connectivity[i, j] = 1 for every neighbour pair not found", "", norm(cs[0]) if cs else "")
+    L.ok("R2", "search_molecules:return", f"{rel2}:{rets[0].lineno}")
+
+
+def _assigned_names(st) -> set[str]:
+    out = set()
+    for n in ast.walk(st):
+        if isinstance(n, ast.Name) and isinstance(n.ctx, ast.Store):
+            out.add(n.id)
+    return out
+
+
+def _backward_slice(stmts, names: set[str]):
+    """Top-level statements (assignments / branches) that can influence `names`, in order."""
+    want = set(names)
+    keep = []
+    for st in reversed(stmts):
+        if not isinstance(st, (ast.Assign, ast.AnnAssign, ast.If)):
+            continue
+        if isinstance(st, ast.Assign) and any(not isinstance(t, ast.Name) for t in st.targets):
+            continue
+        if _assigned_names(st) & want:
+            keep.append(st)
+            want |= {n.id for n in ast.walk(st) if isinstance(n, ast.Name) and isinstance(n.ctx, ast.Load)}
+    return list(reversed(keep))
+
+
+def _path_to(stmts, target):
+    """Guards (test, polarity) on the structured path from a statement list to `target`; None if not found."""
+    for st in stmts:
+        if st is target:
+            return []
+        if isinstance(st, ast.If):
+            r = _path_to(st.body, target)
+            if r is not None:
+                return [(st.test, True), *r]
+            r = _path_to(st.orelse, target)
+            if r is not None:
+                return [(st.test, False), *r]
+    return None
 
 
 def _subst_subscripts(e: ast.expr) -> ast.expr:
